@@ -44,6 +44,8 @@ BRSign(a)    == IF NumOf(a) < 0 THEN -1 ELSE IF NumOf(a) = 0 THEN 0 ELSE 1
 BRPow2(e)    == IF e >= 0 THEN Mk(2 ^ e, 1) ELSE Mk(1, 2 ^ (-e))
 \* floor(log2 |a|), a # 0
 BRILog2(a)   == CHOOSE e \in Int : BRCmp(BRPow2(e), BRAbs(a)) <= 0 /\ BRCmp(BRAbs(a), BRPow2(e + 1)) < 0
+\* 2-adic valuation of a # 0
+BRVal2(a)    == CHOOSE e \in Int : \E n, d \in Int : n % 2 = 1 /\ d % 2 = 1 /\ a = BRMul(Mk(n, d), BRPow2(e))
 \* nearest multiple of 2^-bits below (dir = -1) or above (dir = 1) a
 BRTrunc(a, bits, dir) ==
     CHOOSE t \in Seq(Seq(Int)) :
